@@ -357,6 +357,13 @@ func (c *genCtx) gen(depth int, nn, incap bool) *Expr {
 		if c.o.DirectRec && rapid.Bool().Draw(c.t, "direct") {
 			ref = SubP(c.stack[c.draw(0, len(c.stack)-1, "ancestor")]) // self or an enclosing production
 		}
+		if ref.Uni >= 0 && c.draw(0, 3, "unguarded") == 0 {
+			// the union reference at the head of its sequence: @@ ";" -- kept only if the finished grammar is
+			// not left-recursive (GenGrammar puts the guard back otherwise)
+			s := Seq(ref, rapid.SampledFrom([]*Expr{Lit(";"), Lit(")"), Cap(Lit(";"))}).Draw(c.t, "tail"))
+			s.ung = true
+			return s
+		}
 		if rapid.Bool().Draw(c.t, "closer") {
 			return Seq(guard, ref, Lit(")"))
 		}
@@ -502,22 +509,55 @@ func (c *genCtx) perturb(base *Expr) *Expr {
 func (c *genCtx) trap(depth int, nn bool) *Expr {
 	base := c.simpleSeq(depth)
 	bad := c.perturb(base)
-	kinds := 8
+	kinds := 9
 	if c.o.NoLookNeg {
-		kinds = 5
+		kinds = 6
 	}
 	kind := c.draw(0, kinds-1, "trapkind")
-	if c.o.NoLookNeg && kind == 4 {
-		kind = 7
+	if c.o.NoLookNeg && kind >= 4 {
+		kind = map[int]int{4: 7, 5: 9}[kind]
+	} else if kind == 8 {
+		kind = 9
 	}
 	if c.o.NameElided && len(c.g.Elide) > 0 && c.draw(0, 2, "elidedtrap") == 0 {
 		kind = 8
 	}
 	switch kind {
+	case 9:
+		// a failure deep inside a repeated item, followed by a tail that accepts any token: if the failure is
+		// swallowed anywhere on the way up, the tail mops up the rest and the parse wrongly succeeds
+		var x *Expr
+		if c.nu > 1 && c.draw(0, 1, "mopuni") == 0 {
+			x = SubU(c.draw(1, c.nu-1, "uni"))
+		} else {
+			x = c.subProd(true, depth)
+		}
+		if x == nil {
+			x = c.simpleSeq(depth)
+		}
+		inner := Seq(x, rapid.SampledFrom([]*Expr{Lit(";"), Lit(";"), Cap(Lit(";"))}).Draw(c.t, "moptail"))
+		inner.ung = x.Kind == KSub && x.Uni >= 0
+		mod := rapid.SampledFrom([]string{"*", "*", "?", "+"}).Draw(c.t, "mopmod")
+		if nn {
+			mod = "+"
+		}
+		rep := Group(mod, inner)
+		rep.Style = c.draw(0, 5, "gstyle")
+		any := Alt(Ref("Ident"), Ref("Int"), Lit(";"), Lit("+"), Lit("-"), Lit("("), Lit(")"))
+		return Seq(rep, Group("*", Cap(any)))
 	case 8:
 		// inside one capture an optional attempt starts by matching an elided token the grammar names and is
 		// then abandoned; the accepted path skips that token: @( (Comment x)? y )
 		el := Ref(rapid.SampledFrom(c.g.Elide).Draw(c.t, "trapelided"))
+		if len(c.g.Prods) < c.o.MaxProds+2 && c.draw(0, 2, "elidedprod") == 0 {
+			// the same production tried at one non-elided position but two raw positions: ( El @@P | @@P ) with
+			// P = El x -- after the explicit El it fails, in front of it it matches
+			np := &Prod{Expr: Seq(clone(el), Cap(c.leaf())), PosStyle: 3}
+			c.g.Prods = append(c.g.Prods, np)
+			c.nullP = append(c.nullP, false)
+			pi := len(c.g.Prods) - 1
+			return Alt(Seq(el, SubP(pi)), SubP(pi))
+		}
 		x := c.leaf()
 		y := c.otherLiteral(x)
 		att := Group(rapid.SampledFrom([]string{"?", "*"}).Draw(c.t, "capmod"), Seq(el, x))
@@ -712,6 +752,16 @@ func GenGrammar(t *rapid.T, o GenOpts) *Grammar {
 				pm = !pm
 			}
 			g.Unions[u].Ptr = append(g.Unions[u].Ptr, pm)
+		}
+	}
+	if lr, _ := g.LeftRecursive(); lr {
+		for _, p := range g.Prods {
+			p.Expr.Walk(func(e *Expr) {
+				if e.ung {
+					e.Kids = append([]*Expr{Lit("(")}, e.Kids...)
+					e.ung = false
+				}
+			})
 		}
 	}
 	for i, p := range g.Prods {
